@@ -21,7 +21,7 @@ use roto::{FileTree, NoCtx, Package, Runtime, Val, library};
 use rotov_harness::driver::{Driver, hex};
 use rotov_harness::{Prng, Report};
 use serde_json::{Value, json};
-use std::collections::BTreeSet;
+use std::collections::{BTreeMap, BTreeSet};
 
 // ------------------------------------------------------------ script types
 
@@ -2320,6 +2320,89 @@ struct Judged {
     model: String,
 }
 
+/// A dumped union-find table (hook `Package::verif_c04_unionfind`) as driver tokens: the slots and the real
+/// `find_ref` of every slot. Types that are no variables are numbered by their text (`ids`, shared between the
+/// dumps of one package so that the numbers mean the same before and after the requests).
+fn uf_encode(tab: &[(roto::verif_hooks::c04::UfSlot, roto::verif_hooks::c04::UfSlot)], ids: &mut BTreeMap<String, usize>) -> (Vec<String>, Vec<String>) {
+    let mut enc = |s: &roto::verif_hooks::c04::UfSlot| match s.var {
+        Some((k, i)) => format!("V{}{i}", match k { "Var" => 'v', "IntVar" => 'i', "FloatVar" => 'f', "RecordVar" => 'r', _ => 'e' }),
+        None => {
+            let n = ids.len();
+            format!("T{}", *ids.entry(s.text.clone()).or_insert(n))
+        }
+    };
+    let slots = tab.iter().map(|(s, _)| enc(s)).collect();
+    let res = tab.iter().map(|(_, r)| enc(r)).collect();
+    (slots, res)
+}
+
+/// The package's union-find table before its first request against the modelled `find` / `find_ref`
+/// (`RotoV.GateUF`, variable kinds as generated): the model looks up every index in turn on one table and must
+/// give, lookup by lookup, what the real `find_ref` gives; the read-only lookup on the table those lookups left
+/// must give the same again.
+fn uf_before(drv: &mut Driver, rep: &mut Report, seed: u64, index: u64, src: &str, slots: &[String], res: &[String]) {
+    if slots.is_empty() {
+        rep.hist("uf-table", "empty");
+        return;
+    }
+    let ans = drv.ask(&format!("c04 uf {}", slots.join(" ")));
+    rep.evaluations += 1;
+    let parts: Vec<Vec<&str>> = ans.split(" | ").map(|p| p.split(' ').filter(|t| !t.is_empty()).collect()).collect();
+    let want: Vec<&str> = res.iter().map(|s| s.as_str()).collect();
+    let ok = parts.len() == 3 && parts[0] == want && parts[2] == want && parts[1].len() == slots.len();
+    if !ok {
+        let at = parts.first().and_then(|a| (0..want.len()).find(|&i| a.get(i) != Some(&want[i])));
+        rep.mismatch(
+            "the modelled UnionFind::find / find_ref and the real find_ref disagree on a package's type-variable table",
+            json!({"seed": seed, "index": index, "script": src, "slots": slots.len(), "first_difference_at": at,
+                   "slot": at.map(|i| slots[i].clone()), "real": at.map(|i| res[i].clone()),
+                   "model": at.and_then(|i| parts.first().and_then(|a| a.get(i).map(|s| s.to_string()))),
+                   "driver": if parts.len() == 3 { String::new() } else { ans.chars().take(200).collect() }}),
+        );
+    }
+    let bound = slots.iter().zip(res).filter(|(s, r)| s != r).count();
+    let compressed = if parts.len() == 3 { parts[1].iter().zip(slots).filter(|(a, b)| *a != b).count() } else { 0 };
+    rep.hist("uf-table", if ok { "as modelled" } else { "differs from the model" });
+    rep.hist("uf-slots", match slots.len() { 0..=99 => "<100", 100..=999 => "100..999", _ => ">=1000" });
+    rep.hist("uf-bound-slots", if bound == 0 { "none" } else { "some" });
+    rep.hist("uf-chains (the modelled find compresses)", if compressed == 0 { "none" } else { "some" });
+}
+
+/// The same table after all requests on the package: every slot still resolves to what it resolved to before
+/// (`RotoV.C04UF.find_keeps_every_resolution`, `resolve_history_independent`), and a slot that changed holds its
+/// resolution (the one write of `find`).
+fn uf_after(rep: &mut Report, seed: u64, index: u64, src: &str, before: &(Vec<String>, Vec<String>), before_text: &[(String, String)], after: &(Vec<String>, Vec<String>), after_text: &[(String, String)]) {
+    rep.evaluations += 1;
+    let n = before.0.len();
+    let mut bad: Option<(usize, &'static str)> = None;
+    if after.0.len() != n {
+        bad = Some((n.min(after.0.len()), "the table changed its length"));
+    } else {
+        for i in 0..n {
+            if after.1[i] != before.1[i] || after_text[i].1 != before_text[i].1 {
+                bad = Some((i, "a slot resolves to something else than before the requests"));
+                break;
+            }
+            let same = after.0[i] == before.0[i] && after_text[i].0 == before_text[i].0;
+            let is_res = after.0[i] == before.1[i] && after_text[i].0 == before_text[i].1;
+            if !same && !is_res {
+                bad = Some((i, "a slot was overwritten with something that is not its resolution"));
+                break;
+            }
+        }
+    }
+    let changed = (0..n.min(after.0.len())).filter(|&i| after.0[i] != before.0[i]).count();
+    rep.hist("uf-slots-rewritten-by-requests", if changed == 0 { "none" } else { "some" });
+    rep.class(format!("uf|{}", if changed == 0 { "untouched" } else { "compressed" }));
+    if let Some((i, what)) = bad {
+        rep.mismatch(
+            "the requests made on a package changed its type-variable table otherwise than by path compression (the model threads the package unchanged)",
+            json!({"seed": seed, "index": index, "script": src, "what": what, "slot": i,
+                   "before": before_text.get(i), "after": after_text.get(i)}),
+        );
+    }
+}
+
 fn run_script(fam: &[Entry], rts: &[Runtime<NoCtx>], drv: &mut Driver, rep: &mut Report, pc: &mut Proc, index: u64) {
     let (seed, thorough) = (pc.seed, pc.thorough);
     let (script, mut pairs) = gen_script(fam, seed, index, thorough);
@@ -2348,6 +2431,13 @@ fn run_script(fam: &[Entry], rts: &[Runtime<NoCtx>], drv: &mut Driver, rep: &mut
         }
     };
     rep.hist("script", "compiled");
+    // the one piece of package state a retrieval writes to: the type checker's union-find table (hook),
+    // dumped before the first request and fed to the modelled `find`
+    let mut uf_ids: BTreeMap<String, usize> = BTreeMap::new();
+    let uf0 = pkg.verif_c04_unionfind();
+    let uf0_enc = uf_encode(&uf0, &mut uf_ids);
+    let uf0_text: Vec<(String, String)> = uf0.iter().map(|(a, b)| (a.text.clone(), b.text.clone())).collect();
+    uf_before(drv, rep, seed, index, &script.src, &uf0_enc.0, &uf0_enc.1);
     // the module's real name table
     let keys = existing_keys(&mut pkg);
     let declared: BTreeSet<String> = script.decls.iter().map(|d| d.key()).collect();
@@ -2648,6 +2738,13 @@ fn run_script(fam: &[Entry], rts: &[Runtime<NoCtx>], drv: &mut Driver, rep: &mut
                     "redeclared_by_script": cx.shadow.iter().map(|s| s.0).collect::<Vec<_>>()}));
             }
         }
+    }
+    // … and after the three rounds of requests
+    {
+        let uf1 = pkg.verif_c04_unionfind();
+        let uf1_enc = uf_encode(&uf1, &mut uf_ids);
+        let uf1_text: Vec<(String, String)> = uf1.iter().map(|(a, b)| (a.text.clone(), b.text.clone())).collect();
+        uf_after(rep, seed, index, &script.src, &uf0_enc, &uf0_text, &uf1_enc, &uf1_text);
     }
     // the calls: every literal-payload script of the boundary stream, every fourth other script
     if !to_call.is_empty() && (thorough || script.kind == "literal-payload" || index % 4 == 0) {
